@@ -79,6 +79,64 @@ fn case(rep: &mut Report, seed: u64, index: u64) {
         }
         Ok(Ok(())) => {}
     }
+    // the same map through writers that are not a Vec: one that only implements `write` (so the default
+    // `write_vectored` forwards just the first non-empty slice), one that accepts a few bytes per call, and a
+    // small BufWriter in front of the first. `Write` allows all of that; the bytes must not depend on it.
+    {
+        struct OnlyWrite(Vec<u8>);
+        impl std::io::Write for OnlyWrite {
+            fn write(&mut self, b: &[u8]) -> std::io::Result<usize> {
+                self.0.extend_from_slice(b);
+                Ok(b.len())
+            }
+            fn flush(&mut self) -> std::io::Result<()> {
+                Ok(())
+            }
+        }
+        struct Trickle(Vec<u8>, usize);
+        impl std::io::Write for Trickle {
+            fn write(&mut self, b: &[u8]) -> std::io::Result<usize> {
+                let n = b.len().min(self.1);
+                self.0.extend_from_slice(&b[..n]);
+                Ok(n)
+            }
+            fn flush(&mut self) -> std::io::Result<()> {
+                Ok(())
+            }
+        }
+        let step = 1 + (index % 7) as usize;
+        let outs: Vec<(&str, Result<Result<Vec<u8>, String>, crate::report::PanicInfo>)> = vec![
+            ("plain-write-only", catch(|| {
+                let mut w = OnlyWrite(vec![]);
+                a.to_writer(&mut w).map_err(|e| e.to_string())?;
+                Ok(w.0)
+            })),
+            ("few-bytes-per-call", catch(|| {
+                let mut w = Trickle(vec![], step);
+                a.to_writer(&mut w).map_err(|e| e.to_string())?;
+                Ok(w.0)
+            })),
+            ("small-bufwriter", catch(|| {
+                let mut w = std::io::BufWriter::with_capacity(16 + step, OnlyWrite(vec![]));
+                a.to_writer(&mut w).map_err(|e| e.to_string())?;
+                w.into_inner().map(|x| x.0).map_err(|e| e.to_string())
+            })),
+        ];
+        for (kind, o) in outs {
+            rep.count(&format!("writer-kinds.{}", kind));
+            match o {
+                Ok(Ok(b)) if b == bytes => {}
+                Ok(Ok(b)) => rep.violation(
+                    &format!("C14:writer-kind:{}", kind),
+                    &format!("to_writer produced {} bytes through a {} writer but {} bytes into a Vec (and reported success)", b.len(), kind, bytes.len()),
+                    replay.clone(),
+                    J::Null,
+                ),
+                Ok(Err(e)) => rep.violation(&format!("C14:writer-kind-error:{}", kind), &format!("to_writer failed through a {} writer: {}", kind, e), replay.clone(), J::Null),
+                Err(p) => rep.violation(&format!("C14:write:{}", panic_sig(&p)), &format!("to_writer panicked through a {} writer: {}", kind, p.msg), replay.clone(), J::Null),
+            }
+        }
+    }
     if a.is_empty() != bytes.is_empty() {
         rep.violation("C14:empty", &format!("empty map <-> zero bytes broken: {} entries, {} bytes", a.len(), bytes.len()), replay.clone(), J::Null);
     }
